@@ -952,4 +952,91 @@ theorem placeNodes_vinv_gen (S : Schema) (hts : TextStableP S) (hdet : DetS S) (
       simpa using hfin
 
 
+/-! ### loose validity is carried along the unplaced slice: dropping children on the start spine -/
+
+theorem RL_drop (S : Schema) (oe : Nat) (G : List Node) (n : Nat) (h : RL S oe G) :
+    ∃ oe'', oe'' ≤ oe ∧ RL S oe'' (G.drop n) := by
+  cases oe with
+  | zero =>
+    refine ⟨0, Nat.le_refl _, ?_⟩
+    simp only [RL] at h ⊢
+    exact (checkKids_iff S _).2 (fun x hx => (checkKids_iff S G).1 h x (List.mem_of_mem_drop hx))
+  | succ oe =>
+    obtain ⟨init, t, a, m, k, e, h1, h2, h3, h4, h5⟩ := h
+    subst e
+    rcases Nat.lt_or_ge init.length n with hlt | hge
+    · refine ⟨0, Nat.zero_le _, ?_⟩
+      have : (init ++ [Node.elem t a m k]).drop n = [] := by
+        apply List.drop_eq_nil_of_le
+        simp only [List.length_append, List.length_singleton]
+        omega
+      rw [this]
+      simp [RL]
+    · refine ⟨oe + 1, Nat.le_refl _, init.drop n, t, a, m, k, ?_, ?_, h2, h3, h4, h5⟩
+      · rw [List.drop_append_of_le_length hge]
+      · exact (checkKids_iff S _).2 (fun x hx => (checkKids_iff S init).1 h1 x (List.mem_of_mem_drop hx))
+
+/-- the children `drop_from_fragment` leaves carry marks that were there before -/
+theorem dropFromFragment_marks (P : Marks → Prop) : ∀ (d : Nat) (c c' : List Node) (count : Nat),
+    dropFromFragment c d count = .ok c' → (∀ x ∈ c, P x.marks) → ∀ x ∈ c', P x.marks
+  | 0, c, c', count, h, hc => by
+    have := pure_ok h
+    subst this
+    exact fun x hx => hc x (List.mem_of_mem_drop hx)
+  | d + 1, c, c', count, h, hc => by
+    unfold dropFromFragment at h
+    split at h
+    · rename_i t a m kids rest
+      obtain ⟨inner, _, h⟩ := FM.bind_ok h
+      have := pure_ok h
+      subst this
+      intro x hx
+      rcases List.mem_cons.mp hx with rfl | hx
+      · exact hc (.elem t a m kids) (by simp)
+      · exact hc x (by simp [hx])
+    · simp [throw, throwThe, MonadExceptOf.throw] at h
+
+/-- **dropping `count ≥ 1` children at depth `d` of the start spine**: what is left is open `d` levels at its start
+    and no deeper at its end -/
+theorem UL_drop (S : Schema) : ∀ (d os oe : Nat) (c c' : List Node) (count : Nat), UL S os oe c → d ≤ os →
+    1 ≤ count → dropFromFragment c d count = .ok c' → ∃ oe'', oe'' ≤ oe ∧ UL S d oe'' c'
+  | 0, os, oe, c, c', count, h, _, hcnt, hd => by
+    have := pure_ok hd
+    subst this
+    cases os with
+    | zero => exact RL_drop S oe c count h
+    | succ os' =>
+      obtain ⟨t, a, m, k, rest, e, h1, h2, h3, h4⟩ := h
+      subst e
+      obtain ⟨c1, rfl⟩ : ∃ c1, count = c1 + 1 := ⟨count - 1, by omega⟩
+      simp only [List.drop_succ_cons]
+      rcases h4 with ⟨hr, _⟩ | ⟨_, _, hrl⟩
+      · subst hr
+        exact ⟨0, Nat.zero_le _, by simp [UL, RL]⟩
+      · exact RL_drop S oe rest c1 hrl
+  | d + 1, os, oe, c, c', count, h, hle, hcnt, hd => by
+    obtain ⟨os', rfl⟩ : ∃ os', os = os' + 1 := ⟨os - 1, by omega⟩
+    obtain ⟨t, a, m, k, rest, e, h1, h2, h3, h4⟩ := h
+    subst e
+    unfold dropFromFragment at hd
+    obtain ⟨inner, hi, hd⟩ := FM.bind_ok hd
+    have := pure_ok hd
+    subst this
+    have hm' : MarksOK S t inner :=
+      dropFromFragment_marks (fun mm => (S.nodeType t).allowsMarks mm = true) d k inner count hi h3
+    rcases h4 with ⟨hr, hu⟩ | ⟨hr, hu, hrl⟩
+    · subst hr
+      obtain ⟨oe1, hle1, hu1⟩ := UL_drop S d os' (oe - 1) k inner count hu (by omega) hcnt hi
+      cases oe with
+      | zero =>
+        have : oe1 = 0 := by omega
+        subst this
+        exact ⟨0, Nat.le_refl _, t, a, m, inner, [], rfl, h1, h2, hm', .inl ⟨rfl, hu1⟩⟩
+      | succ oe0 =>
+        exact ⟨oe1 + 1, by omega, t, a, m, inner, [], rfl, h1, h2, hm', .inl ⟨rfl, by simpa using hu1⟩⟩
+    · obtain ⟨oe1, hle1, hu1⟩ := UL_drop S d os' 0 k inner count hu (by omega) hcnt hi
+      have : oe1 = 0 := by omega
+      subst this
+      exact ⟨oe, Nat.le_refl _, t, a, m, inner, rest, rfl, h1, h2, hm', .inr ⟨hr, hu1, hrl⟩⟩
+
 end PM
